@@ -28,6 +28,17 @@ def yieldFiles (sch : Schema) (cfg : Cfg) (fl : Flags) : List Content → NSObj 
       | .error e => .error e
       | .ok (tss, ns2) => .ok (ts :: tss, ns2)
 
+/-- the hypothesis of `reader_eq_yielder` for every file of a several-source call, each at the namespace the iterator reaches it
+    with (executable; along the iterator's own run) -/
+def filesClean (cfg : Cfg) (fl : Flags) : List Content → NSObj → Bool
+  | [], _ => true
+  | d :: ds, ns =>
+    Aux.setsClean cfg { fl with attached := true }
+        { (coreOf d.toks d.tail ns) with ts := (coreOf d.toks d.tail ns).ts.next } [] &&
+      match yieldFrom .nexus cfg fl d.toks d.tail ns with
+      | .error _ => true
+      | .ok (_, ns1) => filesClean cfg fl ds ns1
+
 /-- successive `TreeList.read` calls (no offsets) into one list, each starting from the namespace the previous one left -/
 def readMany (sch : Schema) (cfg : Cfg) (fl : Flags) : List Content → NSObj → List Tree → Except Err (List Tree × NSObj)
   | [], ns, l => .ok (l, ns)
